@@ -6,6 +6,18 @@ import os
 V = os.path.dirname(os.path.dirname(os.path.abspath(__file__)))
 
 CHECKS = {
+    "C10": dict(
+        engine="E1-enumerator",
+        category="exploration",
+        text="Complete table, executed on the real classes: every public writing entry point found by reflection (write*/error*/overwrite/clear) "
+             "on Output, SectionOutput and every IO kind and their sections x verbosity {0,1,2,4} x flag word {None,0..7} x quiet x ANSI/plain; "
+             "text must reach the buffered stream iff not quiet and verbosity >= lowest level named by the flags. The space is finite and is "
+             "enumerated completely in both tiers; a write method added later is picked up by reflection.",
+        design_ref="2/C10",
+        note="Trusted: the 8-line gate reference (lowest_level) and 'reaches the stream' = buffered stream contents changed. Sections get their "
+             "verbosity/quiet set on themselves (inheritance from the parent output is not demanded).",
+        technique="bounded-exhaustive enumeration of the complete configuration table on the implementation",
+    ),
     "C12": dict(
         engine="E2-explicit-state",
         category="model_checking",
